@@ -159,3 +159,23 @@ def sub_underflows(x, y, bounds):
     if hi < 0:
         return True
     return None
+
+
+def canon(t):
+    """the same value as a canonical sum c + k1*a1 + ... (atoms in a fixed order), so that arithmetically equal linear
+    terms become syntactically equal (mod 2^w arithmetic: the rewriting is an identity of the bit-vector ring)"""
+    f = flatten(t)
+    if f is None:
+        return t
+    w = t.size()
+    acc = None
+    for _, (co, a) in sorted(f.terms.items(), key=lambda kv: str(kv[1][1])):
+        co %= (1 << w)
+        if co == 0:
+            continue
+        term = a if co == 1 else z3.BitVecVal(co, w) * a
+        acc = term if acc is None else acc + term
+    c = f.c % (1 << w)
+    if acc is None:
+        return z3.BitVecVal(c, w)
+    return acc if c == 0 else acc + z3.BitVecVal(c, w)
